@@ -669,6 +669,15 @@ class Interp:
             if s1 is None and s2 is None:
                 merge_env(env, e1, e2, tv.poly, st)
                 return None
+            if bool(s1 and s1[0] == 'raise') != bool(s2 and s2[0] == 'raise'):
+                # one arm turned out to raise (through nested tests that were decided): a precondition, like a plain raise-guard - go on with the other arm
+                keep_body = bool(s2 and s2[0] == 'raise')
+                self.assumed.append((mod.path, st.lineno, up(st.test), keep_body, 'raise-guard', tv))
+                go = e1 if keep_body else e2
+                for k_ in list(go):
+                    if not k_.startswith('__') or k_ in ('__yields__', '__tainted__'):
+                        env[k_] = go[k_]
+                return s1 if keep_body else s2
             if s1 and s2 and s1[0] == 'return' and s2[0] == 'return':
                 return ('return', merge_val(s1[1], s2[1], tv.poly, st))
             # `if c: continue` (or the mirror image): the rest of the loop body runs under (not c)
@@ -1219,12 +1228,36 @@ class Interp:
         except (ValueError, OverflowError) as ex:
             return Unk('constant folding: %s' % ex, e)
 
+    def _decorated(self, fi):
+        """the value a module-level name of a function is bound to: the function, or what the package's own decorators make of it (@deco above a def
+        binds the name to deco(function)); decorators from outside the package are taken to leave the behaviour as it is"""
+        if not fi.node.decorator_list or fi.cls is not None:
+            return FuncRef(fi)
+        cache = self.__dict__.setdefault('_decorated_cache', {})
+        if fi.qual in cache:
+            return cache[fi.qual]
+        val = FuncRef(fi)
+        cache[fi.qual] = val          # (a decorator that refers to the name while it is being applied sees the bare function)
+        for d in reversed(fi.node.decorator_list):
+            try:
+                dv = self.expr(d, {'__module__': fi.module}, fi.module)
+            except Exception:
+                dv = None
+            if isinstance(dv, (FuncRef, ClassRef, Closure)):
+                val = self.apply(dv, [val], {}, d, fi.module)
+            elif isinstance(dv, (Marker, type(None))):
+                continue
+            else:
+                val = Unk('decorator %s of %s' % (up(d), fi.qual), d)
+        cache[fi.qual] = val
+        return val
+
     def _wrap_resolved(self, r):
         if r is None:
             return None
         k, v = r
         if k == 'func':
-            return FuncRef(v)
+            return self._decorated(v)
         if k == 'class':
             return ClassRef(v)
         if k == 'module':
@@ -1721,7 +1754,7 @@ class Interp:
                     return Arr((), alg.sym('INF'))
                 if v == float('-inf'):
                     return Arr((), -alg.sym('INF'))
-                return Unk('nan constant')
+                return Arr((), alg.sym('NAN'))          # not-a-number as a value handed on: a symbol that equals nothing else (arithmetic with it is not modelled)
         if isinstance(v, Marker):
             last = v.name.split('.')[-1]
             if v.name.startswith('astropy.units') and last in UNIT_ATOMS:
@@ -1733,6 +1766,8 @@ class Interp:
                 return Arr((), alg.sym('INF'))
             if v.name in ('numpy.pi',):
                 return Arr((), alg.sym('PI'))
+            if v.name in ('numpy.nan', 'numpy.NaN', 'numpy.NAN', 'math.nan'):
+                return Arr((), alg.sym('NAN'))
             return Unk('external value %s' % v.name)
         if isinstance(v, Pinned):
             return Arr((), alg.sym('idx:' + str(v.label), v.label))
@@ -2228,8 +2263,17 @@ class Interp:
             return Unk('star arguments', e)
         args = [self.expr(a, env, mod) for a in e.args]
         kw = {k.arg: self.expr(k.value, env, mod) for k in e.keywords}
+        return self.apply(f, args, kw, e, mod, env)
+
+    def apply(self, f, args, kw, e, mod, env=None):
+        """call the value f"""
+        env = env if env is not None else {}
         if isinstance(f, Unk):
             return f
+        if isinstance(f, Obj) and f.cls is not None and self.repo.find_member(f.cls, '__call__') is not None:
+            m_ = self.repo.find_member(f.cls, '__call__')
+            self.trace.append((m_[1].qual, args, kw, e, mod.path))
+            return self.call(m_[1], args, kw, selfv=f, node=e)          # an instance of a class that defines __call__
         if isinstance(f, FuncRef):
             self.trace.append((f.fi.qual, args, kw, e, mod.path))
             return self.call(f.fi, args, kw, node=e)
@@ -2608,7 +2652,14 @@ class Interp:
                 if isinstance(x, Fraction) and last in ('int32', 'int64'):
                     return int(x)
                 if isinstance(x, (Arr, int, float)):
-                    return self._as_arr(x) if last not in ('int32', 'int64') else self._int(x, e)
+                    r_ = self._as_arr(x) if last not in ('int32', 'int64') else self._int(x, e)
+                    if isinstance(r_, Arr) and r_.ndim == 0:
+                        if last == 'atleast_1d':
+                            r_ = r_.with_(dims=(None,))          # an array of one element
+                        elif last in ('array', 'asarray', 'ascontiguousarray'):
+                            r_ = r_.with_()
+                            r_.arr0 = True          # a 0-d array: the same value, but not a scalar for np.isscalar
+                    return r_
                 if isinstance(x, GenList) and last in ('array', 'asarray') and isinstance(x.elem, Arr) and x.elem.mask is None and x.label not in x.elem.dims:
                     # a list built with one element per position of an axis, made into an array over that axis
                     return Arr((x.label,) + tuple(x.elem.dims), x.elem.poly, unit=x.elem.unit)
@@ -2632,7 +2683,11 @@ class Interp:
                 a = [self._as_arr(v) for v in args[:2]]
                 if any(isinstance(v, Unk) for v in a):
                     return Unk('searchsorted', e)
-                return Arr(a[1].dims, alg.mk_fn('searchsorted', B(a[0].dims[0] if a[0].ndim else None, a[0].poly), P(a[1].poly)), unit=num(1))
+                side_ = kw.get('side', args[2] if len(args) > 2 else 'left')
+                if side_ not in ('left', 'right') or kw.get('sorter') is not None:
+                    return Unk('searchsorted with side=%r / sorter' % (side_,), e)
+                extra_ = [C('right')] if side_ == 'right' else []          # side='right' counts the knots that are <= the query, side='left' those that are <
+                return Arr(a[1].dims, alg.mk_fn('searchsorted', B(a[0].dims[0] if a[0].ndim else None, a[0].poly), P(a[1].poly), *extra_), unit=num(1))
             if last == 'linspace' and len(args) >= 3 and not kw:
                 # n evenly spaced points from a to b: element i is a + i*(b - a)/(n - 1) (a single point is a); the axis is the one created with that count, if any
                 a = [self._as_arr(v) for v in args[:3]]
@@ -2673,7 +2728,7 @@ class Interp:
             if last == 'isscalar':
                 x = args[0]
                 if isinstance(x, Arr):
-                    return x.ndim == 0
+                    return x.ndim == 0 and not getattr(x, 'arr0', False)
                 return _is_pynum(x)
             if last == 'tile' and len(args) == 2 and not kw:
                 x, k = self._as_arr(args[0]), self._as_arr(args[1])
@@ -2691,6 +2746,12 @@ class Interp:
                 r_ = _Repeat(self._as_arr(args[0]), lab_)
                 r_.tiled = last == 'tile'
                 return r_
+            if last == 'repeat' and len(args) == 2 and 'axis' not in kw and isinstance(args[1], Shape) and len(args[1].dims) == 1:
+                # np.repeat(value, x.shape) for a 1-d x: the value at every position of x's axis
+                x = self._as_arr(args[0])
+                if isinstance(x, Arr) and x.ndim == 0 and x.mask is None:
+                    return Arr((args[1].dims[0],), x.poly, unit=x.unit)
+                return Unk('np.repeat', e)
             if last == 'repeat' and len(args) == 2 and 'axis' not in kw:
                 x, k = self._as_arr(args[0]), self._as_arr(args[1])
                 if isinstance(x, Arr) and x.mask is None and isinstance(k, Arr) and k.ndim == 0 and _len_label(k.poly):
@@ -3831,6 +3892,10 @@ def merge_val(a, b, cond, node):
     if cond is not None and isinstance(a, bool) and isinstance(b, (bool, Arr)) or cond is not None and isinstance(b, bool) and isinstance(a, Arr):
         a = Arr((), num(1 if a else 0)) if isinstance(a, bool) else a         # True / False selected by a condition: a truth value
         b = Arr((), num(1 if b else 0)) if isinstance(b, bool) else b
+    if isinstance(a, Marker) and a.name in ('numpy.nan', 'numpy.NaN', 'math.nan'):
+        a = Arr((), alg.sym('NAN'))
+    if isinstance(b, Marker) and b.name in ('numpy.nan', 'numpy.NaN', 'math.nan'):
+        b = Arr((), alg.sym('NAN'))
     if cond is not None and (_is_pynum(a) or isinstance(a, Arr)) and (_is_pynum(b) or isinstance(b, Arr)):
         aa = a if isinstance(a, Arr) else Arr((), num(a))
         bb = b if isinstance(b, Arr) else Arr((), num(b))
